@@ -176,6 +176,8 @@ func addTarget(graph *core.BuildGraph, m targetMap, target *core.BuildTarget) {
 	if target.Subrepo != nil && target.Subrepo.Target != nil {
 		addTarget(graph, m, target.Subrepo.Target)
 	}
+	// A hidden target only exists as long as the rule that generates it does, so that has to stay too.
+	addTarget(graph, m, target.Parent(graph))
 }
 
 // anyInclude returns true if any of the given labels include this one.
